@@ -125,7 +125,8 @@ class Corr(Job):
                 value_only = False   # a gross difference (overflow, flush to zero, a lost bit pattern) is not rounding
             return dict(explanation="implementation and Lean model disagree (projection %s) at output line %d" % (self.projection, i),
                         expected=b[i] if i < len(b) else None, actual=a[i] if i < len(a) else None, corr_only=True,
-                        value_only=value_only)
+                        value_only=value_only,
+                        small=bool(value_only and compare_lines(self.mode, a, b, "f64" if self.projection != "rel" else "rel", self.scale, 1e-6)[0]))
         if self.both:
             r = [l for l in rel[0] if not l.startswith("Z")]
             # with debug assertions compiled out, behaviour is only specified up to the first `debug_assert!` the model predicts
@@ -599,7 +600,24 @@ def run_jobs(jobs):
     redo = []
     for k, (j, f) in enumerate(res):
         if isinstance(j, Corr) and f is not None and f.get("value_only") and j.mode == "f" and j.projection != "pattern":
-            q = ops_f_to_q(j.ops)
+            # exact rationals of a recursive filter grow with every step (a 76 000-step SuperSmoother run never finishes at Q): a
+            # long run is re-checked exactly on its first steps only when the f64 difference is small (within 1e-6 of the scale
+            # everywhere); a gross difference on a long run is reported as it stands
+            steps = sum(1 for o in j.ops if o[:1] in "XU")
+            limit = 300 if gen.has_transc(j.e) or any(n in ("ema", "emaa", "lagf", "lagrsi", "cc") for n in gen.tree_names(j.e)) else 20000
+            ops = j.ops
+            if steps > limit:
+                if not f.get("small"):
+                    continue
+                cut, seen = len(ops), 0
+                for idx, o in enumerate(ops):
+                    if o[:1] in "XU":
+                        seen += 1
+                        if seen > limit:
+                            cut = idx
+                            break
+                ops = ops[:cut]
+            q = ops_f_to_q(ops)
             if q is not None:
                 redo.append((k, Corr(j.e, "q", q, "exact", j.scale, j.both, j.n)))
     if redo:
